@@ -65,7 +65,11 @@ class Estimandizer:
 
             baseline_col = f"{BASELINE_PREFIX}{pointer}"
 
-            if baseline_col not in data_df.columns:
+            # custom estimands are always (re)computed: they may also set the weights (e.g. margin switches to
+            # two party weights), which add_weights above has just reset. Otherwise a data frame that has
+            # already been through this function (the same baseline passed to a second run) would keep the
+            # total turnout as weights
+            if baseline_col not in data_df.columns or callable(globals().get(estimand)):
                 data_df, __ = globals()[estimand](data_df, BASELINE_PREFIX)
 
             if not historical:
